@@ -3,6 +3,7 @@ package formatter
 import (
 	"bytes"
 	"fmt"
+	"strings"
 
 	"github.com/ysugimoto/falco/v2/ast"
 )
@@ -96,7 +97,10 @@ func (f *Formatter) formatFloat(expr *ast.Float) string {
 
 func (f *Formatter) formatString(expr *ast.String) string {
 	if expr.LongString {
-		return fmt.Sprintf(`{%s"%s"%s}`, expr.Delimiter, expr.Value, expr.Delimiter)
+		// A long string may span lines. Its line feeds are not layout: hide them from the line based
+		// formatting (indentation of chunked lines, squeezing of empty lines) until Format() restores them.
+		value := strings.ReplaceAll(expr.Value, "\n", literalLineFeed)
+		return fmt.Sprintf(`{%s"%s"%s}`, expr.Delimiter, value, expr.Delimiter)
 	}
 	// Otherwise, double-quoted string - use original token literal to preserve escapes
 	return fmt.Sprintf(`"%s"`, expr.Token.Literal)
